@@ -66,6 +66,7 @@ EXN = {"ValueError", "IndexError", "HPACKDecodingError", "InvalidTableIndex",
 BUILTIN_BASES = {"BaseException": [], "Exception": ["BaseException"], "LookupError": ["Exception"],
                  "IndexError": ["LookupError"], "ValueError": ["Exception"], "UnicodeError": ["ValueError"],
                  "UnicodeDecodeError": ["UnicodeError"], "TypeError": ["Exception"]}
+SHADOWED_GLOBALS = {}   # builtin / class names that some module binds at top level to something else: name -> line
 REBOUND_LOG = set()     # modules in which `log` is not (only) the module's logger: their log calls are not dropped
 EXC_BASES = {}          # class -> bases, from exceptions.py of the tree under translation (set by main)
 HANDLER_LEAVES = set()  # the handler types that were translated as `catch` (exact constructor): Bridge/B_exn.v
@@ -1053,6 +1054,12 @@ class Tr:
             f = n.func
             if isinstance(f, ast.Name) and f.id in fn.funs and (f.id in env or f.id in BUILTIN_NAMES):
                 bad(n, f"{f.id} is also a local variable, or a module function named like a builtin")
+            if isinstance(f, ast.Name) and (f.id in BUILTIN_NAMES or f.id in fn.funs) and f.id in self.bound_here():
+                # a call that would be read by NAME (a builtin, a class, a module function) while the name is bound to
+                # something else in this function (a parameter, a local, a loop target ...)
+                bad(n, f"{f.id} is called, but it is a name bound in this function")
+            if isinstance(f, ast.Name) and f.id in SHADOWED_GLOBALS:
+                bad(n, f"{f.id} is called, but a module binds that name to something else (line {SHADOWED_GLOBALS[f.id]})")
             if isinstance(f, ast.Name) and env.get(f.id) == "hclass":
                 # a call of a local that holds one of the two header-tuple classes: the tuple of that class
                 if len(n.args) != 2 or n.keywords or any(isinstance(a, ast.Starred) for a in n.args):
@@ -2136,6 +2143,20 @@ class Tr:
                 bad(node, f"the iterator {nm} is used inside a loop")
             p = parents[p]
 
+    def bound_here(self):
+        """every name the function being translated binds (parameters, assignment / loop / with / except targets,
+        `:=`, nested definitions)"""
+        fd = self.fn.fd
+        if fd is None:
+            return set()
+        if getattr(self, "_bound", None) is None or self._bound[0] is not fd:
+            out = {a.arg for a in ast.walk(fd) if isinstance(a, ast.arg)}
+            out |= {x.id for x in ast.walk(fd) if isinstance(x, ast.Name) and not isinstance(x.ctx, ast.Load)}
+            out |= {x.name for x in ast.walk(fd) if isinstance(x, (ast.FunctionDef, ast.ClassDef)) and x is not fd}
+            out |= {x.name for x in ast.walk(fd) if isinstance(x, ast.ExceptHandler) and x.name}
+            self._bound = (fd, out)
+        return self._bound[1]
+
     def check_unshared_local(self, node, nm):
         """nm is a local list / bytearray that is changed in place (append ...): the translation treats it as a VALUE that
         is rebound, which is what Python does only as long as no second reference to the object exists.  Refused: nm
@@ -2886,6 +2907,31 @@ def main():
         status["exceptions.<class hierarchy>"] = "translated"
     except (Unsupported, OSError, SyntaxError) as e:
         status["exceptions.<class hierarchy>"] = f"unsupported: {e}"
+    # (calls of builtins and of the library's classes are read by name: no module may bind such a name itself, except
+    # the class definitions and the imports of those very classes)
+    SHADOWED_GLOBALS.clear()
+    own = {"HeaderTuple": "struct", "NeverIndexedHeaderTuple": "struct", "HeaderTable": "table", "HuffmanEncoder": "huffman"}
+    for m_, t_ in trees.items():
+        for n_ in t_.body:
+            names_ = []
+            if isinstance(n_, (ast.FunctionDef, ast.ClassDef)):
+                names_ = [n_.name]
+            elif isinstance(n_, (ast.Assign, ast.AnnAssign, ast.AugAssign)):
+                names_ = [x.id for tg in (n_.targets if isinstance(n_, ast.Assign) else [n_.target]) for x in ast.walk(tg)
+                          if isinstance(x, ast.Name) and not isinstance(x.ctx, ast.Load)]
+            elif isinstance(n_, (ast.Import, ast.ImportFrom)):
+                for a_ in n_.names:
+                    b_ = (a_.asname or a_.name).split(".")[0]
+                    if b_ in own and isinstance(n_, ast.ImportFrom) and n_.level == 1 and n_.module == own[b_] and a_.asname in (None, a_.name):
+                        continue
+                    if b_ == "deque" and isinstance(n_, ast.ImportFrom) and n_.level == 0 and n_.module == "collections" \
+                            and a_.name == "deque" and a_.asname in (None, "deque"):
+                        continue
+                    names_.append(b_)
+            for b_ in names_:
+                if b_ in BUILTIN_NAMES and not (isinstance(n_, ast.ClassDef) and own.get(b_) == m_):
+                    SHADOWED_GLOBALS[b_] = n_.lineno
+                    status[f"{m_}.<name {b_}>"] = f"unsupported: {b_} is bound at module level (line {n_.lineno})"
     # (`log.<x>(...)` statements are dropped by name: `log` must be nothing but the module's logger)
     for m_, t_ in trees.items():
         for x in ast.walk(t_):
